@@ -228,7 +228,8 @@ def tt3_rw(sx, code, nserv, nblk, tail):
         pos += 2 if bl[pos] >= 128 else 3
         i += 1
     body = [code] + IDM + [nserv] + list(sx.bytes("sc", 2 * nserv)) + \
-        [nblocks] + bl + list(sx.bytes("data", tail))
+        [nblocks] + bl + list(sx.bytes("data", min(tail, 2))) + \
+        [(0x55 + 7 * j) & 255 for j in range(2, tail)]
     cmd = sx.mkbytes([len(body) + 1] + body, True)
     entry = "tt3.process_command"
     st, rsp = guarded(sx, entry, (), emu.process_command, cmd)
@@ -251,6 +252,178 @@ def tt3_dialog(sx, lens):
         if st == 'exc':
             break
     sx.reach("tt3:dialog-ended")
+    return out
+
+
+# ----------------------------------------------------------------------------
+# (2b) nfc.dep - activation and data exchange against a scripted frontend
+# ----------------------------------------------------------------------------
+NFCID3 = [0x01, 0xFE, 0x11, 0x22, 0x33, 0x44, 0x55, 0x66, 0x53, 0x54]
+CODES = {"ATR": 0, "PSL": 4, "DEP": 6, "DSL": 8, "RLS": 10}
+
+
+def framed(sx, brty, body):
+    return sx.mkbytes(([0xF0] if brty == "106A" else []) + [len(body) + 1] + list(body), True)
+
+
+def peer_item(sx, name, shape, brty, response):
+    """one thing the frontend hands to nfc.dep for a transmission of the peer:
+    'timeout' / 'crc': the driver's exceptions; 'raw:n': n symbolic bytes;
+    '<PDU>:n': start byte, length byte and the two code bytes correct, then n
+    symbolic bytes"""
+    if shape == "timeout":
+        return nfc.clf.TimeoutError("silent")
+    if shape == "crc":
+        return nfc.clf.TransmissionError("crc")
+    kind, n = shape.split(":")
+    n = int(n)
+    if kind == "raw":
+        return sx.bytes(name, n, mutable=True)
+    body = [0xD5 if response else 0xD4, CODES[kind] + (1 if response else 0)] + \
+        list(sx.bytes(name, n))
+    return framed(sx, brty, body)
+
+
+def lazy_items(sx, prefix, shapes_per_step, brty_of, response):
+    """script entries that draw their shape when the code under test asks"""
+    def make(i, shapes):
+        def item(data):
+            shape = sx.pick("%s%d.shape" % (prefix, i), shapes)
+            return peer_item(sx, "%s%d" % (prefix, i), shape, brty_of(), response)
+        return item
+    return [make(i, shapes) for i, shapes in enumerate(shapes_per_step)]
+
+
+def dep_call(sx, entry, fn, *args, **kw):
+    try:
+        return guarded(sx, entry, COMM, fn, *args, **kw)
+    except envp.TooManyCalls:
+        sx.check(False, "endless-loop:" + entry)
+
+
+def dep_initiator_exchange(sx, brty, did, send_len, miu, steps):
+    """Initiator.exchange() then deactivate(); every answer of the target is
+    arbitrary (shape drawn per answer from steps[i])"""
+    clf = envp.ScriptClf(sx)
+    d = nfc.dep.Initiator(clf)
+    d.target = nfc.clf.RemoteTarget(brty)
+    d.miu, d.did, d.nad, d.rwt = miu, did, None, 0.0003
+    d.pni = sx.pick("pni", [0, 3])
+    clf.script = lazy_items(sx, "r", steps, lambda: d.target.brty, True)
+    data = bytes(bytearray([(i * 3 + 1) & 255 for i in range(send_len)]))
+    st, r = dep_call(sx, "dep.Initiator.exchange", d.exchange, data, 1.0)
+    if st == 'ok':
+        sx.reach("dep:initiator-exchanged")
+        sx.check(envp.is_bytes(r), "not-bytes:dep.Initiator.exchange")
+    else:
+        sx.reach("dep:initiator-exchange-error")
+    st2, r2 = dep_call(sx, "dep.Initiator.deactivate", d.deactivate,
+                       sx.pick("release", [True, False]))
+    return [st, len(r) if st == 'ok' else r, st2]
+
+
+def atr_bytes(sx, name, shape, response):
+    """ATR_REQ / ATR_RES as the driver reports it (no length byte)"""
+    kind, n = shape.split(":")
+    n = int(n)
+    code = [0xD5, 0x01] if response else [0xD4, 0x00]
+    if kind == "any":
+        return sx.bytes(name, n, mutable=True)
+    if kind == "hdr":
+        return sx.mkbytes(code + list(sx.bytes(name, n)), True)
+    # valid: nfcid3, then did bs br (to) symbolic, pp symbolic, n general bytes
+    k = 5 if response else 4
+    return sx.mkbytes(code + NFCID3 + list(sx.bytes(name + ".par", k)) +
+                      list(sx.bytes(name + ".gb", n)), True)
+
+
+def dep_initiator_activate(sx, mode, atr, psl, brs):
+    """Initiator.activate(): mode 'acm' - the driver's sense_dep result carries
+    the target's ATR_RES; 'A' / 'F' - passive target, ATR_REQ and PSL_REQ go
+    through exchange() and the answers are arbitrary frames"""
+    clf = envp.ScriptClf(sx)
+    d = nfc.dep.Initiator(clf)
+    if mode == "acm":
+        t = nfc.clf.RemoteTarget("106A", atr_res=atr_bytes(sx, "atr", atr, True))
+        clf.sense_script = [t]
+        steps = [[psl]]
+    else:
+        if mode == "A":
+            t = nfc.clf.RemoteTarget("106A", sens_res=sx.mkbytes([0x01, 0x01]),
+                                     sdd_res=sx.mkbytes([8, 1, 2, 3]),
+                                     sel_res=sx.mkbytes([0x40]))
+            clf.sense_script = [None, t]
+        else:
+            t = nfc.clf.RemoteTarget("212F", sensf_res=sx.mkbytes(
+                [0x01] + NFCID3[0:8] + [0] * 8 + [0xFF, 0xFF]))
+            clf.sense_script = [None, None, t]
+        steps = [[atr], [psl]]
+    clf.script = lazy_items(sx, "r", steps, lambda: d.target.brty, True)
+    st, gb = dep_call(sx, "dep.Initiator.activate", d.activate, None, brs=brs,
+                      gbi=b"Ffm\x01\x01\x13")
+    if st == 'exc':
+        sx.reach("dep:initiator-activate-error")
+        return gb
+    if gb is None:
+        sx.reach("dep:initiator-not-activated")
+        return None
+    sx.reach("dep:initiator-activated")
+    sx.check(envp.is_bytes(gb), "not-bytes:dep.Initiator.activate")
+    guarded(sx, "dep.Initiator.str", (), str, d)
+    # the link is used once and released
+    clf.script = []
+    st2, r2 = dep_call(sx, "dep.Initiator.exchange", d.exchange, b"\x00\x00", 0.5)
+    st3, r3 = dep_call(sx, "dep.Initiator.deactivate", d.deactivate)
+    return [len(gb), st2, st3]
+
+
+def dep_target_session(sx, brty, atr, first, steps, send_len):
+    """Target.activate() with the ATR_REQ and first DEP_REQ the frontend's
+    listen() reports (ATR_REQ of 16..64 bytes: what ContactlessFrontend.listen
+    lets through), exchange(None), exchange(data), deactivate(); every further
+    request of the initiator is arbitrary"""
+    clf = envp.ScriptClf(sx)
+    t = nfc.dep.Target(clf)
+    atr_req = atr_bytes(sx, "atr", atr, False)
+    assert 16 <= len(atr_req) <= 64
+    kind, n = first.split(":")
+    if kind == "raw":
+        dep_req = sx.bytes("first", int(n), mutable=True)
+    else:
+        dep_req = sx.mkbytes([0xD4, CODES[kind]] + list(sx.bytes("first", int(n))), True)
+
+    def listen(target):
+        lt = nfc.clf.LocalTarget(brty, atr_req=atr_req, dep_req=dep_req,
+                                 atr_res=target.atr_res)
+        if brty == "106A":
+            lt.sens_res, lt.sdd_res, lt.sel_res = \
+                target.sens_res, target.sdd_res, target.sel_res
+        else:
+            lt.sensf_res = target.sensf_res
+        return lt
+    clf.listen_result = listen
+    st, gb = dep_call(sx, "dep.Target.activate", t.activate, 1.0, gbt=b"Ffm\x01\x01\x13")
+    if st == 'exc':
+        sx.reach("dep:target-activate-error")
+        return gb
+    if gb is None:
+        sx.reach("dep:target-not-activated")
+        return None
+    sx.reach("dep:target-activated")
+    guarded(sx, "dep.Target.str", (), str, t)
+    clf.script = lazy_items(sx, "q", steps, lambda: brty, False)
+    out = []
+    st, r = dep_call(sx, "dep.Target.exchange:first", t.exchange, None, 1.0)
+    out.append(st if r is not None or st == 'exc' else 'none')
+    if st == 'ok' and r is not None:
+        sx.reach("dep:target-first-request")
+        data = bytearray([(i * 5 + 2) & 255 for i in range(send_len)])
+        st, r = dep_call(sx, "dep.Target.exchange", t.exchange, data, 1.0)
+        out.append(st if r is not None or st == 'exc' else 'none')
+        if st == 'ok' and r is not None:
+            sx.reach("dep:target-exchanged")
+    st, r = dep_call(sx, "dep.Target.deactivate", t.deactivate)
+    out.append(st)
     return out
 
 
@@ -295,6 +468,52 @@ def partitions(tier):
                 for n in ns:
                     add("dep-frame:%s:%s:%s:%d" % (role, brty, name, n), "dep_frame",
                         role=role, brty=brty, shape=name + sfx, n=n)
+    # (2b) dep activation / exchange
+    RES = ["timeout", "crc", "raw:0", "raw:3", "DEP:0", "DEP:1", "DEP:2", "DEP:3",
+           "ATR:1", "PSL:1", "DSL:0", "RLS:1"]
+    RES2 = ["timeout", "crc", "DEP:1", "DEP:2", "DSL:0"]
+    for brty in ("106A", "212F"):
+        for first in RES:
+            for did, send_len, miu in ((None, 3, 61), (7, 5, 3)):
+                if quick and brty == "106A" and did is not None:
+                    continue
+                steps = [[first], RES2, RES2 if not quick else ["timeout", "DEP:1"]]
+                add("dep-ix:%s:%s:%s" % (brty, first, did), "dep_initiator_exchange",
+                    brty=brty, did=did, send_len=send_len, miu=miu, steps=steps)
+    ATR_RES_SHAPES = ["any:0", "any:1", "any:2", "any:3", "hdr:0", "hdr:1", "hdr:9", "hdr:13",
+                      "hdr:14", "valid:0", "valid:1", "valid:4"]
+    for atr in ATR_RES_SHAPES:
+        for psl in ("PSL:1", "PSL:0", "PSL:2", "raw:4", "DEP:1", "timeout"):
+            if quick and psl not in ("PSL:1", "raw:4") and atr != "valid:1":
+                continue
+            add("dep-ia:acm:%s:%s" % (atr, psl), "dep_initiator_activate", mode="acm",
+                atr=atr, psl=psl, brs=2)
+    for mode in ("A", "F"):
+        for atr in ("ATR:0", "ATR:1", "ATR:13", "ATR:14", "ATR:15", "ATR:16", "ATR:19",
+                    "raw:0", "raw:1", "raw:4", "PSL:1", "DEP:1", "timeout", "crc"):
+            for psl, brs in (("PSL:1", 2), ("PSL:0", 1), ("raw:4", 2), ("DEP:1", 2), ("timeout", 0)):
+                if quick and (psl, brs) != ("PSL:1", 2) and atr != "ATR:16":
+                    continue
+                add("dep-ia:%s:%s:%s:%d" % (mode, atr, psl, brs), "dep_initiator_activate",
+                    mode=mode, atr=atr, psl=psl, brs=brs)
+    REQ = ["timeout", "crc", "raw:0", "raw:3", "DEP:0", "DEP:1", "DEP:2", "DEP:3",
+           "ATR:1", "ATR:14", "PSL:3", "PSL:1", "DSL:0", "DSL:1", "RLS:0"]
+    REQ2 = ["timeout", "DEP:1", "DEP:2", "DSL:0", "RLS:1"]
+    for brty in ("106A", "424F"):
+        for atr in ("valid:0", "valid:3", "any:16", "hdr:14", "hdr:20"):
+            for first in ("DEP:1", "DEP:0", "DEP:2", "DEP:3", "DSL:0", "DSL:1", "RLS:0",
+                          "ATR:14", "PSL:3", "raw:1", "raw:2", "raw:3"):
+                if quick and atr != "valid:3" and first != "DEP:1":
+                    continue
+                if quick and brty == "106A" and first not in ("DEP:1", "DSL:0", "raw:2"):
+                    continue
+                steps = [REQ2, REQ2 if not quick else ["timeout", "DEP:1"]]
+                add("dep-ts:%s:%s:%s" % (brty, atr, first), "dep_target_session",
+                    brty=brty, atr=atr, first=first, steps=steps, send_len=2)
+        for q in REQ:
+            steps = [[q], REQ2, REQ2 if not quick else ["timeout", "DEP:1"]]
+            add("dep-tx:%s:%s" % (brty, q), "dep_target_session", brty=brty,
+                atr="valid:3", first="DEP:1", steps=steps, send_len=5)
     # (4) type 3 tag emulation
     for n in range(0, (6 if quick else 8) + 1):
         add("tt3:raw:%d" % n, "tt3_command", shape="raw", n=n)
@@ -308,7 +527,7 @@ def partitions(tier):
                 continue
             add("tt3-rw:%02x:%d:%d:%d" % (code, nserv, nblk, tail), "tt3_rw",
                 code=code, nserv=nserv, nblk=nblk, tail=tail)
-    for lens in ([6, 6], [6, 0], [6, 1], [10, 10], [6, 12, 3]):
+    for lens in ([6, 6], [6, 0], [6, 1], [10, 10], [6, 3, 6]):
         add("tt3-dialog:" + "+".join(map(str, lens)), "tt3_dialog", lens=lens)
     return P
 
@@ -316,7 +535,12 @@ def partitions(tier):
 MUST_REACH = ["pdu:decode-error", "pdu:decoded", "pdu:nested-agf-decoded",
               "dep:pdu-protocol-error", "dep:pdu-decoded", "dep:pdu-not-mine",
               "dep:frame-error", "dep:frame-decoded",
+              "dep:initiator-exchanged", "dep:initiator-exchange-error",
+              "dep:initiator-activate-error", "dep:initiator-not-activated",
+              "dep:initiator-activated", "dep:target-not-activated",
+              "dep:target-activated", "dep:target-first-request", "dep:target-exchanged",
               "tt3:ignored", "tt3:answered", "tt3:dialog-ended"]
+LIMITS = {"quick": dict(witness_cap=30), "thorough": dict(witness_cap=120)}
 BOUNDS = {"quick": "", "thorough": ""}
 OUTSIDE = []
 ASSUMPTIONS = []
